@@ -9,8 +9,8 @@ package guards
 //   g >= 0  <=  mu*g - lambda*f >= 0  and  f >= 0   (mu, lambda > 0).
 
 const (
-	maxDepth = 4
-	maxMul   = 64
+	maxDepth = 5
+	maxMul   = 4096
 )
 
 type prover struct {
